@@ -53,11 +53,11 @@ theorem FN_succ (f : Nat) (hV : FV x f) (hM : FM x f) : FN x (f + 1) := by
         simp only
         by_cases hc : (c == 0x7B) = true
         · simp only [if_pos hc]
-          exact hM d dm start (some name) _ a' {} [] [] [] [] hd rfl rfl no_mem no_mem no_mem rfl
+          exact hM d dm start (some name) _ a' {} [] [] [] [] hd rfl rfl no_mem no_mem no_mem no_mem rfl rfl
         · simp only [if_neg hc]; exact RelF_nt rfl rfl
     · exact RelF_nt rfl rfl
 
-theorem FT_succ (hreg : x.ctx.opts.registry = none) (f : Nat) (hV : FV x f) : FT x (f + 1) := by
+theorem FT_succ (hR : RegistryOK x.ctx.cfg x.ctx.opts) (f : Nat) (hV : FV x f) : FT x (f + 1) := by
   intro d dm start st a hd
   rw [readTaggedA, readTagged_succ]
   unfold rtStep
@@ -101,8 +101,52 @@ theorem FT_succ (hreg : x.ctx.opts.registry = none) (f : Nat) (hV : FV x f) : FT
             | ok v st'' =>
               obtain ⟨v0, hr2, g⟩ := hrel
               rw [hr2]
-              simp only [hreg]
-              exact RelF_value ⟨erase_tagged _ _ g.er, VOK_tagged _ _ _ g.ok, MdOK_of_none rfl, MdOK_of_none rfl⟩
+              simp only
+              have hpass : RelF x.ctx.cfg d
+                  (if (!(a''.request x.orc .arena).1) = true then (Res.err oomErr st'', (a''.request x.orc .arena).2)
+                   else (Res.ok (.tagged (mkHdr start (x.ctx.pos st''.rest)) none (slice (c :: cs) st'.rest) v) st'',
+                         (a''.request x.orc .arena).2)).1
+                  (Res.ok (.tagged (mkHdr start (x.ctx.pos st''.rest)) none (slice (c :: cs) st'.rest) v0) st'') :=
+                RelF_value ⟨erase_tagged _ _ g.er, VOK_tagged _ _ _ g.ok, VOK_tagged _ _ _ g.ok0,
+                  MdOK_of_none rfl, MdOK_of_none rfl⟩
+              cases hregc : x.ctx.opts.registry with
+              | none => exact hpass
+              | some reg =>
+                simp only
+                cases dm
+                · simp only [Bool.false_eq_true, ↓reduceIte]
+                  cases hh : reg (slice (c :: cs) st'.rest) with
+                  | some h =>
+                    simp only
+                    obtain ⟨rs, re⟩ := range_of_erase g.er
+                    rw [rs, re]
+                    rcases hqk : (if x.handlerReq h.name = true then a''.request x.orc .arena else (true, a'')) with ⟨okH, a1⟩
+                    simp only
+                    cases okH
+                    · exact RelF_nt rfl rfl
+                    · simp only [Bool.not_true, Bool.false_eq_true, ↓reduceIte]
+                      have hok := hR reg hregc _ h hh d v v0 g
+                      cases hrun : h.run v with
+                      | none =>
+                        rw [hrun] at hok
+                        exact RelF_nt rfl rfl
+                      | some r =>
+                        rw [hrun] at hok
+                        cases hrun0 : h.run v0 with
+                        | none => rw [hrun0] at hok; exact hok.elim
+                        | some r0 =>
+                          rw [hrun0] at hok
+                          simp only at hok ⊢
+                          exact ⟨_, rfl, hok.setRange start (x.ctx.pos st''.rest)⟩
+                  | none =>
+                    simp only
+                    by_cases hm1 : (x.ctx.opts.mode == 1) = true
+                    · simp only [if_pos hm1]; exact ⟨v0, rfl, g.weaken⟩
+                    · simp only [if_neg hm1]
+                      by_cases hm2 : (x.ctx.opts.mode == 2) = true
+                      · simp only [if_pos hm2]; exact RelF_nt rfl rfl
+                      · simp only [if_neg hm2]; exact hpass
+                · exact hpass
           · exact RelF_nt rfl rfl
       · simp only at e
         cases r with
@@ -110,7 +154,7 @@ theorem FT_succ (hreg : x.ctx.opts.registry = none) (f : Nat) (hV : FV x f) : FT
         | ok v st' => exact e.elim
         | err e' st' => exact RelF_nt e.1 e.2
 
-theorem FMe_succ (hreg : x.ctx.opts.registry = none) (f : Nat) (hV : FV x f) : FMe x (f + 1) := by
+theorem FMe_succ (f : Nat) (hV : FV x f) : FMe x (f + 1) := by
   intro d dm start st a hd
   rw [readMetaA, readMeta_succ]
   unfold rmeStep
@@ -129,7 +173,7 @@ theorem FMe_succ (hreg : x.ctx.opts.registry = none) (f : Nat) (hV : FV x f) : F
     obtain ⟨m0, hr0, gm⟩ := hrel
     rw [hr0]
     simp only
-    have hm0 := readValue_inv x.ctx hreg f (d + 1) dm st st' m0 (by omega) hr0
+    have hm0 := gm.ok0
     cases hme : metaEntries m with
     | none => exact RelF_nt rfl rfl
     | some p =>
@@ -158,7 +202,7 @@ theorem FMe_succ (hreg : x.ctx.opts.registry = none) (f : Nat) (hV : FV x f) : F
           obtain ⟨form0, hr2, gf⟩ := hrel2
           rw [hr2]
           simp only
-          have hf0 := readValue_inv x.ctx hreg f (d + 1) dm st' st'' form0 (by omega) hr2
+          have hf0 := gf.ok0
           by_cases hmt : (!form.metaTarget) = true
           · simp only [if_pos hmt]; exact RelF_nt rfl rfl
           · have hmt0 : ¬ (!form0.metaTarget) = true := by rw [← metaTarget_of_erase gf.er]; exact hmt
@@ -177,7 +221,7 @@ theorem FMe_succ (hreg : x.ctx.opts.registry = none) (f : Nat) (hV : FV x f) : F
               have en := El_metaEntries gm.ok hme
               have en0 := El_metaEntries hm0 hme0'
               have ea := attachMeta_erase x.ctx.cfg (m := m) (m0 := m0) gf.er hk hv en en0 gf.md gf.md0
-              exact ⟨_, rfl, setStart_of_erase start ea, VOK_meta m nks nvs start gf.ok,
+              exact ⟨_, rfl, setStart_of_erase start ea, VOK_meta m nks nvs start gf.ok, VOK_meta m0 nks0 nvs0 start hf0,
                 MdOK_setHdr _ (MdOK_attachMeta ht en gf.md), MdOK_setHdr _ (MdOK_attachMeta ht0 en0 gf.md0)⟩
 
 theorem FV_succ (f : Nat) (hV : FV x f) (hS : FS x f) (hM : FM x f)
@@ -214,7 +258,7 @@ theorem FV_succ (f : Nat) (hV : FV x f) (hS : FS x f) (hM : FM x f)
       · by_cases h2 : decide (d ≥ Tables.maxNestingDepth) = true
         · simp only [if_pos h2]; exact RelF_nt rfl rfl
         · simp only [if_neg h2]
-          exact hM d dm _ none _ a {} [] [] [] [] (lt_of_not_deep h2) rfl rfl no_mem no_mem no_mem rfl
+          exact hM d dm _ none _ a {} [] [] [] [] (lt_of_not_deep h2) rfl rfl no_mem no_mem no_mem no_mem rfl rfl
       · cases cs with
         | nil => exact hT d dm _ _ a (Or.inr rfl)
         | cons nx cs' =>
@@ -272,7 +316,7 @@ theorem RelF_fuelOut {cfg : Cfg} {d : Nat} (st : St) : RelF cfg d (fuelOut st) (
   · intro _; exact ⟨_, _, rfl, rfl⟩
 
 /-- the fault relation for the six reader functions, by induction on the fuel -/
-theorem reader_fault (hreg : x.ctx.opts.registry = none) :
+theorem reader_fault (hR : RegistryOK x.ctx.cfg x.ctx.opts) :
     ∀ f, FV x f ∧ FS x f ∧ FM x f ∧ FN x f ∧ FT x f ∧ FMe x f := by
   intro f
   induction f with
@@ -280,14 +324,14 @@ theorem reader_fault (hreg : x.ctx.opts.registry = none) :
     refine ⟨?_, ?_, ?_, ?_, ?_, ?_⟩
     · intro d dm st a _; rw [readValueA, readValue_zero]; exact RelF_fuelOut _
     · intro d dm kind start st a b acc acc0 _ _ _ _; rw [readSeqA, readSeq_zero]; exact RelF_fuelOut _
-    · intro d dm start ns st a b ks vs ks0 vs0 _ _ _ _ _ _ _; rw [readMapA, readMap_zero]; exact RelF_fuelOut _
+    · intro d dm start ns st a b ks vs ks0 vs0 _ _ _ _ _ _ _ _ _; rw [readMapA, readMap_zero]; exact RelF_fuelOut _
     · intro d dm start st a _; rw [readNsMapA, readNsMap_zero]; exact RelF_fuelOut _
     · intro d dm start st a _; rw [readTaggedA, readTagged_zero]; exact RelF_fuelOut _
     · intro d dm start st a _; rw [readMetaA, readMeta_zero]; exact RelF_fuelOut _
   | succ f ih =>
     obtain ⟨hV, hS, hM, hN, hT, hMe⟩ := ih
-    exact ⟨FV_succ f hV hS hM hN hT hMe, FS_succ hreg f hV hS, FM_succ hreg f hV hM, FN_succ f hV hM,
-      FT_succ hreg f hV, FMe_succ hreg f hV⟩
+    exact ⟨FV_succ f hV hS hM hN hT hMe, FS_succ f hV hS, FM_succ f hV hM, FN_succ f hV hM,
+      FT_succ hR f hV, FMe_succ f hV⟩
 
 end
 end Edn.Proofs.AllocSim
